@@ -5,3 +5,4 @@ git -C /repo apply "$P" || { echo "patch does not apply"; exit 9; }
 cd /verif && ./check "$ID" --tier "$TIER"; RC=$?
 git -C /repo checkout -- . 
 echo "mutant-exit=$RC"
+for g in $(cat /verif/tools/goextract/GENERATED.list); do /verif/.build/goextract $g /repo /verif/lean/AggkitModel/Generated/$g.lean; done
